@@ -361,7 +361,6 @@ def _judge_streams(spec, probe, m, raw, R, bump):
     seen = [S.seen_index(spec["n"], layers, pos, j) for j in range(m)]
     wname = S.wrapper_class_name(layers[pos])
     if probe["rule"] == "pairwise":
-        first = {}
         for j in range(m):
             for k in range(j):
                 if seen[j] == seen[k]:
@@ -407,8 +406,9 @@ def _loader_run(spec, lo, mw, m, R, bump, perturb):
         raise
     except Exception as e:  # noqa: BLE001
         msg = f"{type(e).__name__}: {e}"
-        if isinstance(e, RuntimeError) and ("timed out" in str(e) or "DataLoader timed out" in str(e)):
-            raise core.Inconclusive(f"dataloader with {k} workers timed out ({LOADER_TIMEOUT_S}s)")
+        if isinstance(e, RuntimeError) and ("timed out" in str(e) or "exited unexpectedly" in str(e) or "killed by signal" in str(e)):
+            # wall clock / a worker process killed from outside is never a verdict
+            raise core.Inconclusive(f"dataloader with {k} workers: {msg[:300]}")
         # exceptions raised inside a worker arrive re-raised with the original type and the worker traceback in the message
         name = type(e).__name__
         return {"kind": f"loader-crash:{name}", "exc": name, "obs": "loader",
@@ -470,15 +470,13 @@ def _reduce(spec, finding):
     loader_only = finding.get("obs") == "loader"
     if finding["kind"] == "same-stream":
         l = layers[finding["layer"]]
-        return [(spec, finding, S.wrapper_class_name(l))]
+        return [(spec, finding, S.wrapper_family(l))]
     if finding["kind"].startswith("construct") and isinstance(finding.get("layer"), int):
         l = layers[finding["layer"]]
         return [(spec, finding, S.wrapper_class_name(l))]
     if loader_only:
         seeded = [l for l in layers if l["w"] in S.SEEDED]
-        top = seeded[-1] if seeded else layers[-1]
-        trees = S.layer_trees(top)
-        lab = f"{S.wrapper_family(top) if top['w'] in S.SEEDED else S.wrapper_class_name(top)}" + (f":{H.node_label(trees[0])}" if len(trees) == 1 else "")
+        lab = "+".join(sorted({S.wrapper_family(l) for l in seeded})) or "stack"
         return [(spec, finding, f"loader-only:{lab}")]
 
     def judge(sub):
@@ -497,6 +495,20 @@ def _reduce(spec, finding):
         if not hits:
             out.append((cur_spec, cur_finding, f"{S.wrapper_family(layer)}:{H.node_label(tree)}"))
 
+    T0 = H.t_img("tensor", 3, 8, 8)
+
+    def simplest(layer):
+        """the same wrapper (same seed) over the simplest seeded workload: one plain noise transform on a tensor image"""
+        noise = S.probe_tree("leaf", T0)
+        w = layer["w"]
+        if w == "xtw":
+            return _solo(spec, dict(layer, tree=noise), T=T0)
+        if w == "mv":
+            return _solo(spec, dict(layer, configs=[{"form": "tuple", "n": 2, "tree": noise}]), T=T0)
+        if w == "semseg":
+            return _solo(spec, dict(layer, members=[noise]), T=H.t_semseg("tensor", 8, 8))
+        return None
+
     any_hit = False
     for layer in layers:
         if layer["w"] not in S.SEEDED or layer.get("seed") is None:
@@ -507,6 +519,13 @@ def _reduce(spec, finding):
             continue
         any_hit = True
         w = layer["w"]
+        simple = simplest(layer)
+        if simple is not None:
+            gs = judge(simple)
+            if _same_kind(finding, gs):
+                # the wrapper fails on the simplest seeded transform: the mechanism is the wrapper, not a particular transform
+                out.append((simple, gs, S.wrapper_family(layer)))
+                continue
         if w == "xtw":
             def mk(sub_tree, layer=layer):
                 node = {k: v for k, v in sub_tree.items() if k not in ("implicit",)}
@@ -565,9 +584,9 @@ def run_case(run, spec):
         for l in layers:
             if l["w"] in S.SEEDED:
                 _note(run, "wrappers_held", S.wrapper_class_name(l))
-        if len(layers) >= 2:
-            run.sample({"stack": _brief(spec), "mode": spec["mode"], "size": S.stack_len(spec["n"], layers), "loaders": [lo["workers"] for lo in spec["loaders"]],
-                        "seed_sensitive": sens, "index_sensitive": idx_sens}, cap=6)
+        if spec.get("loaders") and (len(layers) >= 2 or spec.get("probe")):
+            run.sample({"stack": _brief(spec), "mode": spec["mode"], "size": S.stack_len(spec["n"], layers), "loader_workers": [lo["workers"] for lo in spec["loaders"]],
+                        "probe": (spec.get("probe") or {}).get("shape"), "seed_sensitive": sens, "index_sensitive": idx_sens}, cap=6)
         return
 
     with StepBudget(STEP_LIMIT * 6, _codes(run), what="reducing a violating stack"):
